@@ -1086,8 +1086,15 @@ class RLC(Cpt):
         # Strip voltage and current labels from voltage source.
         opts.strip_all_labels()
 
+        # The `s` keyword marks the value as a Laplace-domain expression;
+        # without it a value that does not contain s (e.g., -L * i0)
+        # is read back as a time-domain constant.
         vnet = self._netmake_variant('V', nodes=(dummy_node, self.relnodes[1]),
-                                     args=self.Voc.laplace()(var), opts=opts)
+                                     args=(), opts=Opts(''))
+        vnet += ' s ' + self._arg_format(self.Voc.laplace()(var))
+        opts_str = str(opts).strip()
+        if opts_str != '':
+            vnet += '; ' + opts_str
         if voltage_opts == {}:
             return znet + '\n' + vnet
 
